@@ -188,7 +188,7 @@ def enum_chao(tier):
 def overlap_case(draw, tier="quick"):
     fn = draw(st.sampled_from(["jaccard_index", "overlap", "overlap_coefficient"]))
     kind = draw(st.sampled_from(["str", "int"]))
-    pool = ["CASSL", "CASSF", "CAWY", "x", "y z", "é"] if kind == "str" else [1, 2, 3, 5, 8, 13]
+    pool = ["CASSL", "CASSF", "CAWY", "x", "y z", "é", ""] if kind == "str" else [1, 2, 3, 5, 8, 13, 0]   # '' and 0 are elements, not missing
     if draw(st.booleans()):
         # a common part and a private part on each side (proper, non-empty intersection), with duplicates, shuffled
         perm = list(draw(st.permutations(pool)))
